@@ -1251,7 +1251,11 @@ def path_scenario(info, cex):
             e = {"k": "Index", "c": [e], "i": {"f": C.string(z3.String(idx))}}
         else:
             e = {"k": "Index", "c": [e], "i": {"n": C.integer(z3.Int(idx))}}
-    sc = {"facts": C.value(z3.Const("facts", VAL)), "builder": [{"op": "rule", "name": "main", "expr": e}]}
+    pre = []
+    rn = z3.String("ref.name")
+    if C.boolean(sym_has(rn)):
+        pre.append({"op": "symbol", "name": C.string(rn), "value": C.value(sym_at(rn))})
+    sc = {"facts": C.value(z3.Const("facts", VAL)), "builder": pre + [{"op": "rule", "name": "main", "expr": e}]}
     from .e3replay import expected_result
     return sc, 0, expected_result(C, cex["_case"].result, None), None
 
